@@ -11,7 +11,7 @@ Nothing is ever committed to /repo; the patch is applied with `git apply` and un
 import sys, os, subprocess, json, shutil, time, re
 
 VERIF = os.path.dirname(os.path.dirname(os.path.abspath(__file__)))
-REPO = "/repo"
+REPO = os.environ.get("VERIF_REPO", "/repo")
 ENV = dict(os.environ, CARGO_NET_OFFLINE="true")
 
 
